@@ -38,4 +38,17 @@ Section Gen.
   Definition SFSDistribution_get_cov (n i j : nat) : T :=
     if (Nat.eqb i 0 || Nat.eqb i n || Nat.eqb j 0 || Nat.eqb j n)%bool then o0 OP
     else pmoment 2 [combined self_reward i; combined self_reward j] true true.
+
+  Variable paccumulate : nat -> list Rw -> bool -> bool -> list T.   (* super().accumulate(k, end_times, rewards, center, permute), end_times fixed *)
+
+  (* SFSDistribution.get_accumulation: rewards default to k copies of self.reward *)
+  Definition SFSDistribution_get_accumulation (k i : nat) (rewards : option (list Rw)) (center permute : bool) : list T :=
+    let rewards := match rewards with None => repeat self_reward k | Some r => r end in
+    paccumulate k (map (fun r => combined r i) rewards) center permute.
+
+  (* SFSDistribution.accumulate: one row per entry of the spectrum, nt = len(end_times); the argument list unpacked into get_accumulation
+     is [k, i, end_times, rewards, center, permute] in the order of its parameters *)
+  Definition SFSDistribution_accumulate (n : nat) (indices : list nat) (nt k : nat) (rewards : option (list Rw)) (center permute : bool) : list (list T) :=
+    let accumulation := map (fun i => SFSDistribution_get_accumulation k i rewards center permute) indices in
+    [repeat (o0 OP) nt] ++ accumulation ++ repeat (repeat (o0 OP) nt) (n - length indices).
 End Gen.
